@@ -178,6 +178,14 @@ func (t *Terms) term(v ssa.Value) string {
 	case *ssa.Alloc:
 		return "alloc:" + x.Comment + t.id(x)
 	case *ssa.FieldAddr:
+		// a by-value struct parameter/receiver is spilled into a local: name the parameter, not the spill
+		if a, ok := t.resolveFree(x.X).(*ssa.Alloc); ok {
+			if val, ok := singleStore(a); ok {
+				if prm, ok := val.(*ssa.Parameter); ok {
+					return "&param:" + prm.Name() + "." + fieldName(x.X, x.Field)
+				}
+			}
+		}
 		return "&" + t.T(x.X) + "." + fieldName(x.X, x.Field)
 	case *ssa.Field:
 		return t.T(x.X) + "." + fieldName(x.X, x.Field)
